@@ -139,6 +139,7 @@ class DiffIloc(WindowBase):
     """diff_iloc(dfs, new, window): keep exactly the last `window` rows, hand back what left, in order."""
     qual = 'diff_iloc'
     props = ['C07', 'C11', 'C12']
+    dfs_pytype = 'deque'        # acc['dfs'] is the deque returned by the previous call (a list only on the very first call)
 
     def build(self, I):
         st = State()
@@ -148,7 +149,7 @@ class DiffIloc(WindowBase):
         w = z3.Int('window')
         st.assume(w >= 1)
         st.assume(all_nonempty(D))
-        dfs = st.new_list(D, K_FRAME)
+        dfs = st.new_list(D, K_FRAME, self.dfs_pytype)
         self.finish(I, {'dfs': dfs, 'new': new, 'window': VInt(w)})
         return None, [dfs, new], {'window': VInt(w)}
 
@@ -349,6 +350,7 @@ class DiffLoc(WindowBase):
     keeps exactly the rows with  mx - index < T  (mx = newest index), hands back the others, in order."""
     qual = 'diff_loc'
     props = ['C07', 'C12']
+    dfs_pytype = 'deque'
     assumptions = ('the index is non-decreasing across the concatenation of all frames (precondition of the property); hence '
                    'frame.index.min()/max() are the index of its first/last row and max over the frames is the index of the last row',
                    'frame.loc[:b] on a sorted index returns the prefix of rows with index <= b (label slices are inclusive) (trusted)',
@@ -363,7 +365,7 @@ class DiffLoc(WindowBase):
         T = z3.Int('window_ns')
         st.assume(T >= 1)
         st.assume(all_nonempty(D))
-        dfs = st.new_list(D, K_FRAME)
+        dfs = st.new_list(D, K_FRAME, self.dfs_pytype)
         mx = z3.Int('mx')
         g['mx'] = VInt(mx)
         g['T'] = VInt(T)
@@ -466,4 +468,14 @@ class DiffLoc(WindowBase):
                 Clause('C12.argument_not_mutated', ['C12'], when='return', text='list(dfs) == old(list(dfs))')]
 
 
-ALL += [DiffLoc]
+class DiffLocFirstCall(DiffLoc):
+    name = 'diff_loc[dfs is a list]'
+    dfs_pytype = 'list'
+
+
+class DiffIlocFirstCall(DiffIloc):
+    name = 'diff_iloc[dfs is a list]'
+    dfs_pytype = 'list'
+
+
+ALL += [DiffLoc, DiffLocFirstCall, DiffIlocFirstCall]
